@@ -92,22 +92,22 @@ theorem init_s6 (env : Env) (cl ct v : Val) (d : List (Str × Val)) (h : InitSt 
   pyqw [hv]
   constructor <;> simp [*]
 
-/-- the method `_mungeOrderBy` is the translated one -/
+/-- the method `_mungeOrderBy` (of an object of the class) is the translated one -/
 def MungeIs : Prop :=
-  ∀ (c : String) (fs : List (String × Val)) (a : Val),
+  ∀ (c : String) (fs : List (String × Val)) (a : Val), aget "sourceClass" fs = some clsV →
     cm (.obj c fs) "_mungeOrderBy" [a] [] = toR (mungeX (qIface sch P fnRec cm cv) (.obj c fs) a)
 
 theorem mapR_munge (hm : MungeIs sch P fnRec cm cv) (c : String) (fs : List (String × Val))
     (hsc : aget "sourceClass" fs = some clsV) (l : List Query.OrderArg) :
     mapR (fun x => cm (.obj c fs) "_mungeOrderBy" [x] []) (l.map (OrderArg.toVal sch))
       = .ok (l.map fun a => OExpr.toVal sch (Query.mungeOrderBy sch a)) := by
-  have hm' : ∀ (c : String) (fs : List (String × Val)) (a : Val),
+  have hm' : ∀ (c : String) (fs : List (String × Val)) (a : Val), aget "sourceClass" fs = some clsV →
     cm (.obj c fs) "_mungeOrderBy" [a] [] = toR (mungeX (qIface sch P fnRec cm cv) (.obj c fs) a) := hm
   induction l with
   | nil => rfl
   | cons a l ih =>
     simp only [List.map_cons, mapR, ih]
-    rw [hm', munge_translated sch P fnRec cm cv c fs hsc a]
+    rw [hm' _ _ _ hsc, munge_translated sch P fnRec cm cv c fs hsc a]
     simp [toR]
 
 theorem mungeAll_many (k : Query.SeqKind) (l : List Query.OrderArg) :
@@ -123,7 +123,7 @@ theorem init_s7 (hm : MungeIs sch P fnRec cm cv) (env : Env) (cl ct : Val) (d : 
   cases o with
   | none =>
     pyqw [OrderBy.toVal, Query.mungeAll, DbOrder.toVal]
-    rw [show cm _ "_mungeOrderBy" [Val.none] [] = _ from hm _ _ _]
+    rw [show cm _ "_mungeOrderBy" [Val.none] [] = _ from hm _ _ _ hsc]
     unfold mungeX run mungeOrderBy mungeOrderBy_s0 mungeOrderBy_s1
     pyqw [toR]
   | one a =>
@@ -131,13 +131,13 @@ theorem init_s7 (hm : MungeIs sch P fnRec cm cv) (env : Env) (cl ct : Val) (d : 
     cases a with
     | str s =>
       simp only [OrderArg.toVal, isStrV_str, isTupleV_str, isListV_str, Bool.or_false, Bool.false_eq_true, if_false]
-      rw [show cm _ "_mungeOrderBy" [Val.str s] [] = _ from hm _ _ _, munge_str sch P fnRec cm cv _ _ hsc s]
+      rw [show cm _ "_mungeOrderBy" [Val.str s] [] = _ from hm _ _ _ hsc, munge_str sch P fnRec cm cv _ _ hsc s]
       simp [toR, Res.seq_norm]
     | expr e =>
       have : isTupleV (OExpr.toVal sch e) = false ∧ isListV (OExpr.toVal sch e) = false := by
         cases e <;> simp [OExpr.toVal, fieldV, constV, descV]
       simp only [OrderArg.toVal, this, Bool.or_false, Bool.false_eq_true, if_false]
-      rw [show cm _ "_mungeOrderBy" [OExpr.toVal sch e] [] = _ from hm _ _ _, munge_expr sch P fnRec cm cv _ e]
+      rw [show cm _ "_mungeOrderBy" [OExpr.toVal sch e] [] = _ from hm _ _ _ hsc, munge_expr sch P fnRec cm cv _ e]
       simp [toR, Res.seq_norm, Query.mungeOrderBy]
   | many k l =>
     rw [mungeAll_many]
